@@ -1,1 +1,105 @@
-//! Verification hooks: `addr_maps` (thin pass-through wrappers; feature `verif-hooks` only).
+//! C18: the three mapped-address maps and the classification of socket addresses.
+//!
+//! Thin pass-throughs: `Maps` wraps the very `MappedAddrs` struct the socket and the remote
+//! map share (three `AddrMap` instantiations); `classify` is `MultipathMappedAddr::from`.
+
+use std::net::{IpAddr, SocketAddr};
+
+use iroh_base::{CustomAddr, EndpointId, RelayUrl, TransportAddr};
+
+use crate::socket::{
+    mapped_addrs::{
+        CustomMappedAddr, EndpointIdMappedAddr, MappedAddr, MultipathMappedAddr, RelayMappedAddr,
+    },
+    remote_map::MappedAddrs,
+};
+
+/// What `MultipathMappedAddr::from(SocketAddr)` says an address is.
+#[derive(Debug, Clone, Copy, PartialEq, Eq, Hash)]
+pub enum Kind {
+    /// `MultipathMappedAddr::Mixed`: the per-endpoint address.
+    Endpoint,
+    /// `MultipathMappedAddr::Relay`
+    Relay,
+    /// `MultipathMappedAddr::Custom`
+    Custom,
+    /// `MultipathMappedAddr::Ip`: an ordinary address.
+    Ip,
+}
+
+/// `MultipathMappedAddr::from(addr)`, reduced to its variant.
+pub fn classify(addr: SocketAddr) -> Kind {
+    match MultipathMappedAddr::from(addr) {
+        MultipathMappedAddr::Mixed(_) => Kind::Endpoint,
+        MultipathMappedAddr::Relay(_) => Kind::Relay,
+        MultipathMappedAddr::Custom(_) => Kind::Custom,
+        MultipathMappedAddr::Ip(_) => Kind::Ip,
+    }
+}
+
+/// The real `MappedAddrs` (clones share the maps, as in the crate).
+#[derive(Clone, Default)]
+pub struct Maps(pub(crate) MappedAddrs);
+
+fn v6(addr: SocketAddr) -> Option<std::net::Ipv6Addr> {
+    match addr.ip() {
+        IpAddr::V6(a) => Some(a),
+        IpAddr::V4(_) => None,
+    }
+}
+
+impl Maps {
+    pub fn new() -> Self {
+        Self::default()
+    }
+
+    /// `endpoint_addrs.get(key).private_socket_addr()`
+    pub fn endpoint_get(&self, key: &EndpointId) -> SocketAddr {
+        self.0.verif_endpoint_get(key).private_socket_addr()
+    }
+
+    /// `endpoint_addrs.lookup(..)`; `Err(())` if `addr` does not convert to the mapped type.
+    pub fn endpoint_lookup(&self, addr: SocketAddr) -> Result<Option<EndpointId>, ()> {
+        let a = v6(addr).ok_or(())?;
+        let a = EndpointIdMappedAddr::try_from(a).map_err(|_| ())?;
+        Ok(self.0.verif_endpoint_lookup(&a))
+    }
+
+    /// `relay_addrs.get(key).private_socket_addr()`
+    pub fn relay_get(&self, url: &RelayUrl, id: &EndpointId) -> SocketAddr {
+        self.0
+            .verif_relay_get(&(url.clone(), *id))
+            .private_socket_addr()
+    }
+
+    /// `relay_addrs.lookup(..)`; `Err(())` if `addr` does not convert to the mapped type.
+    pub fn relay_lookup(&self, addr: SocketAddr) -> Result<Option<(RelayUrl, EndpointId)>, ()> {
+        let a = v6(addr).ok_or(())?;
+        let a = RelayMappedAddr::try_from(a).map_err(|_| ())?;
+        Ok(self.0.verif_relay_lookup(&a))
+    }
+
+    /// `custom_addrs.get(key).private_socket_addr()`
+    pub fn custom_get(&self, key: &CustomAddr) -> SocketAddr {
+        self.0.verif_custom_get(key).private_socket_addr()
+    }
+
+    /// `custom_addrs.lookup(..)`; `Err(())` if `addr` does not convert to the mapped type.
+    pub fn custom_lookup(&self, addr: SocketAddr) -> Result<Option<CustomAddr>, ()> {
+        let a = v6(addr).ok_or(())?;
+        let a = CustomMappedAddr::try_from(a).map_err(|_| ())?;
+        Ok(self.0.verif_custom_lookup(&a))
+    }
+
+    /// `remote_map::to_transport_addr(addr, relay_addrs, custom_addrs)`; the relay variant
+    /// also returns the endpoint id of the relay path.
+    pub fn to_transport_addr(&self, addr: SocketAddr) -> Option<(TransportAddr, Option<EndpointId>)> {
+        self.0.verif_to_transport_addr(addr).map(|a| {
+            let id = match &a {
+                crate::socket::transports::Addr::Relay(_, id) => Some(*id),
+                _ => None,
+            };
+            (TransportAddr::from(a), id)
+        })
+    }
+}
